@@ -136,15 +136,39 @@ inductive Kind
   | sessionPoll    -- polls nothing but `active`
   deriving DecidableEq, Repr
 
-/-- the effect of one shutdown event on the object a call of kind `k` waits on.  `accept_notify_one`
+/-- which object a wait site waits on, from the expression the source calls `.wait()` on -/
+def kindOfObj (obj : String) : Kind :=
+  if obj == "self.event" || obj == "self.status_event" then .chanEvent
+  else if obj == "self._cv" || obj == "self.out_buffer_cv" then .chanCv
+  else if obj == "self.server_accept_cv" then .accept
+  else if obj == "time" then .sessionPoll
+  else .transportPoll
+
+/-- what closing a channel (`_unlink()` → `_set_closed()`) does to the object `obj`, given the statements
+    `_set_closed` and `BufferedPipe.close` execute UNCONDITIONALLY in the source (generated).  A wake-up that sits
+    under a condition gives a waiter nothing it can rely on. -/
+def chanEffect (obj : String) : List LAct :=
+  let sc := PV.Generated.C13.setClosedStmts
+  let pc := PV.Generated.C13.pipeCloseStmts
+  if obj == "self.event" then (if sc.contains "self.event.set" then [.setFlag] else [])
+  else if obj == "self.status_event" then (if sc.contains "self.status_event.set" then [.setFlag] else [])
+  else if obj == "self._cv" then
+    -- BufferedPipe.read on in_buffer / in_stderr_buffer (recv, recv_stderr)
+    (if sc.contains "self.in_buffer.close" && sc.contains "self.in_stderr_buffer.close" &&
+        pc.contains "self._closed=True" && pc.contains "self._cv.notify_all" then [.setFlag, .notify] else [])
+  else if obj == "self.out_buffer_cv" then
+    (if sc.contains "self.closed=True" && sc.contains "self.out_buffer_cv.notify_all" then [.setFlag, .notify] else [])
+  else []
+
+/-- the effect of one shutdown event on the object `obj` a call waits on.  `accept_notify_one`
     (a `notify()` that may go to another waiter) gives this caller nothing. -/
-def actsOf (k : Kind) (ev : String) : List LAct :=
+def actsOf (obj : String) (ev : String) : List LAct :=
   if ev == "set_inactive" then [.setInactive] else
-  match k with
+  match kindOfObj obj with
   | .transportPoll =>
     if ev == "completion_set" || ev == "auth_abort" || ev == "channel_events_set" then [.setFlag] else []
-  | .chanEvent => if ev == "unlink_channels" then [.setFlag] else []
-  | .chanCv => if ev == "unlink_channels" then [.setFlag, .notify] else []
+  | .chanEvent => if ev == "unlink_channels" then chanEffect obj else []
+  | .chanCv => if ev == "unlink_channels" then chanEffect obj else []
   | .accept => if ev == "accept_notify_all" then [.notify] else []
   | .sessionPoll => []
 
@@ -156,19 +180,11 @@ def remoteEvents (tail : List (String × Bool)) : List String := tail.map (·.1)
 def localEvents (tail : List (String × Bool)) (cl : List String) : List String :=
   cl.flatMap fun e => if e == "run_tail" then (tail.filter (fun x => !x.2)).map (·.1) else [e]
 
-def progOf (tail : List (String × Bool)) (cl : List String) (k : Kind) : Loss → List LAct
-  | .remote => (remoteEvents tail).flatMap (actsOf k)
-  | .localClose => (localEvents tail cl).flatMap (actsOf k)
+def progOf (tail : List (String × Bool)) (cl : List String) (obj : String) : Loss → List LAct
+  | .remote => (remoteEvents tail).flatMap (actsOf obj)
+  | .localClose => (localEvents tail cl).flatMap (actsOf obj)
 
-def srcProg (k : Kind) : Loss → List LAct := progOf PV.Generated.C13.runTail PV.Generated.C13.closeSeq k
-
-/-- which object a wait site waits on, from the expression the source calls `.wait()` on -/
-def kindOfObj (obj : String) : Kind :=
-  if obj == "self.event" || obj == "self.status_event" then .chanEvent
-  else if obj == "self._cv" || obj == "self.out_buffer_cv" then .chanCv
-  else if obj == "self.server_accept_cv" then .accept
-  else if obj == "time" then .sessionPoll
-  else .transportPoll
+def srcProg (obj : String) : Loss → List LAct := progOf PV.Generated.C13.runTail PV.Generated.C13.closeSeq obj
 
 /-- the wait shape as classified by the generator; anything unknown is the most pessimistic shape
     (one edge-triggered wait) -/
@@ -191,13 +207,13 @@ def toApi (w : PV.Generated.C13.WaitShape) : Api :=
     checksFlag := w.loopChecksFlag || parseWait w.kind != .cvLoop,
     clear := if w.row == "channel_request" then
                (if PV.Generated.C13.eventClearGuarded then .guarded else .unguarded) else .none,
-    prog := srcProg (kindOfObj w.obj) }
+    prog := srcProg w.obj }
 
 def apiTable : List Api := PV.Generated.C13.waitShapes.map toApi
 
 /-- a transport-level poll loop that re-tests `active` on every wake-up (the shape of open_channel & co.) -/
 def pollRow (name : String) : Api :=
-  { name, wait := .poll, precheck := false, loopChecksActive := true, prog := srcProg .transportPoll }
+  { name, wait := .poll, precheck := false, loopChecksActive := true, prog := srcProg "event" }
 
 /-- a channel request as it was: `_event_pending()` cleared the event unconditionally -/
 def channelRequestOld : Api :=
